@@ -146,7 +146,8 @@ func (ex *exampleValidator) validateExampleValueValidAgainstSchema() *Result {
 		// reset explored schemas to get depth-first recursive-proof exploration
 		ex.resetVisited()
 		for nm, sch := range s.spec.Spec().Definitions {
-			res.Merge(ex.validateExampleValueSchemaAgainstSchema("definitions."+nm, "body", &sch)) //#nosec
+			// walk a copy: judging a value expands the $ref under its schema in place
+			res.Merge(ex.validateExampleValueSchemaAgainstSchema("definitions."+nm, "body", scratchSchema(&sch))) //#nosec
 		}
 	}
 	return res
